@@ -156,14 +156,20 @@ def replay_snapshot(obligation=None, model=None, meta=None):
                     return {'confirmed': True, 'inputs': where, 'observed': 'dae.%s of %s does not hold the saved Jacobian values after save_ss / load_ss' % (k, who),
                             'native_cmd': 'save_ss(buffer, system); load_ss(buffer)'}
         with contextlib.redirect_stdout(io.StringIO()), contextlib.redirect_stderr(io.StringIO()):
-            ss.TDS.config.tf = t1 + 0.7
-            s2.TDS.config.tf = t1 + 0.7
+            t2 = t1 + 0.7 if t1 > 2.0 else 2.3          # the early snapshot is continued through the line trip at 2 s, which is still pending in it
+            ss.TDS.config.tf = t2
+            s2.TDS.config.tf = t2
             ok1, ok2 = ss.TDS.run(), s2.TDS.run()
         if ok1 and not ok2:
-            return {'confirmed': True, 'inputs': where, 'observed': 'continuing the loaded snapshot to t=%r fails (stops at t=%r) while the saved system continues' % (t1 + 0.7, float(s2.dae.t)),
+            return {'confirmed': True, 'inputs': where, 'observed': 'continuing the loaded snapshot to t=%r fails (stops at t=%r) while the saved system continues' % (t2, float(s2.dae.t)),
                     'native_cmd': 'save_ss; load_ss; TDS.run() on both'}
         if ok1 and ok2:
             d = max(float(np.max(np.abs(ss.dae.x - s2.dae.x))), float(np.max(np.abs(ss.dae.y - s2.dae.y))))
+            lu = [float(x) for x in np.asarray(ss.Line.u.v)]
+            lu2 = [float(x) for x in np.asarray(s2.Line.u.v)]
+            if lu != lu2:
+                return {'confirmed': True, 'inputs': where, 'observed': 'after continuing to t=%r the line statuses differ: saved system %r, loaded snapshot %r (an event pending in the snapshot did not act)' % (t2, lu, lu2),
+                        'native_cmd': 'save_ss; load_ss; TDS.run() on both'}
             if d > 1e-6 or ss.dae.t != s2.dae.t:
                 return {'confirmed': True, 'inputs': where, 'observed': 'continued runs differ: max|d(x, y)| = %.3e, end times %r / %r' % (d, float(ss.dae.t), float(s2.dae.t)),
                         'native_cmd': 'save_ss; load_ss; TDS.run() on both'}
